@@ -72,6 +72,8 @@ pub enum ModelEvaluatorError {
   DecisionTableRuleSizeMismatch(usize, usize, usize, usize),
   #[error("cyclic requirements, element with identifier `{0}` requires itself")]
   CyclicRequirements(String),
+  #[error("item definition `{0}` refers to itself, recursive item definitions are not supported")]
+  RecursiveItemDefinition(String),
 }
 
 impl From<ModelEvaluatorError> for DmntkError {
@@ -150,4 +152,8 @@ pub fn err_decision_table_rule_size_mismatch(inputs: usize, outputs: usize, expe
 
 pub fn err_cyclic_requirements(id: &str) -> DmntkError {
   ModelEvaluatorError::CyclicRequirements(id.to_string()).into()
+}
+
+pub fn err_recursive_item_definition(name: &str) -> DmntkError {
+  ModelEvaluatorError::RecursiveItemDefinition(name.to_string()).into()
 }
